@@ -1122,19 +1122,19 @@ def check_backward_histories(ctx, want_driver=True, deep=False, batch=None):
         _ask(batch, [f"R {j} {bits(z)} {bits(lp)}" for j, z, lp, _ in sub], handle)
 
 
-def check_object_histories(ctx, want_driver=True, deep=False, batch=None):
+def check_object_histories(ctx, want_driver=True, deep=False, batch=None, only_setters=False):
     """ONE rule / likelihood object used under several dtypes, distribution kinds, observation batches and label encodings
     in sequence (see _c13hist): every float64 call is judged and no call may change the object."""
     from props import _c13hist as H
     rng = ctx.rng("object-histories" + (":deep" if deep and ctx.quick else ""))
     pend = []
     tot = {}
-    for spec in H.gen_object_specs(rng, deep):
+    for spec in (H.gen_setter_specs(rng, True) if only_setters else H.gen_object_specs(rng, deep)):
         probs, state, mreq, cnt = H.run_object(spec, _mp_logp)
         for k_, v_ in cnt.items():
             tot[k_] = tot.get(k_, 0) + v_
         ctx.case(f"OH:{spec['object']}:{spec['built_under']}:{spec['N']}:" +
-                 ">".join(c_["op"][:4] + ":" + c_.get("dtype", "")[-2:] + ":" + c_.get("dist", "")[:2] + ":" + c_.get("enc", "") for c_ in spec["ops"]),
+                 ">".join(c_["op"][:4] + c_.get("way", "") + c_.get("hyper", "") + ":" + c_.get("dtype", "")[-2:] + ":" + c_.get("dist", "")[:2] + ":" + c_.get("enc", "") for c_ in spec["ops"]),
                  sample={"object": spec["object"], "built_under": spec["built_under"],
                          "ops": [c_["op"] + ("/" + c_["dtype"] if "dtype" in c_ else "") for c_ in spec["ops"]]})
         ctx.count("object_histories")
@@ -1280,6 +1280,12 @@ def search(ctx, broken):
         correspondence(ctx, want_driver=False)
     if ctx.failures:
         return
+    # a purity fact / state observation broke: first exactly the class a cached value can hurt — use -> change a
+    # hyper-parameter (every public way) -> use again, eval and train mode, judged with the current hyper-parameters
+    if any(("Props" in str(b_[1]) or "purity" in str(b_[1]) or "state-written" in str(b_[1]) or b_[0] == "translator") for b_ in broken):
+        check_object_histories(ctx, want_driver=False, deep=True, only_setters=True)
+        if ctx.failures:
+            return
     # deeper history programs (longer sequences, more passes, more dtype / encoding orders) against the specification
     check_backward_histories(ctx, want_driver=False, deep=True)
     check_object_histories(ctx, want_driver=False, deep=True)
